@@ -66,7 +66,8 @@ class Fn(object):
         return "%s:%d" % (self.file, self.line)
 
     def loc(self, sid):
-        return "%s:%d" % (self.file, self.stmts[sid]["l"])
+        # statements of an out-of-line member definition live in the file of the body
+        return "%s:%d" % (relfile(self.d["bfile"]) if self.d.get("bfile") else self.file, self.stmts[sid]["l"])
 
     @property
     def params(self):
